@@ -4,29 +4,7 @@ Run with `lake env lean --run Main.lean` or as the compiled `driver` executable.
 -/
 import Mathy.Model.Wire
 import Mathy.Model.HeapOps
-import Mathy.Gen.PySrcParse
 open Mathy
-
-/-- the Python outcome of the TRANSLATED `ExpressionParser().parse(text)` (Gen/PySrcTokSt + Gen/PySrcParse:
-tokenize with `exclude_padding = True`, then `_parse`), in the wire format of `ParseOut` -/
-def srcParse (cs : List Char) : String :=
-  open Mathy.Py Mathy.Gen.Src in
-  let perr (e : PyErr) : String :=
-    match e with
-    | .ValueError msg => match msg[15]? with
-      | some c => s!"badchar {c.toNat}"
-      | none => "perr ValueError:number"
-    | .InvalidExpression => "perr InvalidExpression" | .OutOfTokens => "perr OutOfTokens"
-    | .InvalidSyntax => "perr InvalidSyntax" | .UnexpectedBehavior => "perr UnexpectedBehavior"
-    | .TrailingTokens => "perr TrailingTokens" | .IndexError => "perr internal:IndexError"
-    | .KeyError => "perr internal:KeyError" | .NoneUsed => "perr internal:NoneUsed"
-    | .OutOfFuel => "perr MODEL-FUEL"
-  match Tokenizer_tokenize true cs with
-  | .error e => perr e
-  | .ok toks =>
-    match ExpressionParser__parse ⟨[], ⟨[], 0⟩⟩ toks with
-    | .ok (e, _) => s!"ok {e.toWire}"
-    | .error e => perr e
 
 def withTree (toks : List String) (f : Ex → List String → String) : String :=
   match Ex.ofWire (toks.length + 1) toks with
@@ -61,10 +39,6 @@ def answer (line : String) : String :=
   | ["parse", text] =>
     match textOfWire text with
     | some cs => (parseText cs).toWire
-    | none => "bad-op"
-  | ["srcparse", text] =>
-    match textOfWire text with
-    | some cs => srcParse cs
     | none => "bad-op"
   | "print" :: rest => withTree rest fun t _ =>
       " ".intercalate ("toks" :: (printRoot showRat t).map Tok.toWire)
